@@ -587,6 +587,54 @@ def run(ctx):
 
   core.hyp_run(ctx, scase(), sorc, per(240, 12000), name="c10_str")
 
+  if not ctx.quick:
+    atheris_phase(ctx, int(max(30, min(240, ctx.time_left() * 0.5))))
+
+
+def atheris_phase(ctx, seconds):
+  """Thorough tier: the grammar oracle driven by libFuzzer (child process,
+  see vf/gen/c10_fuzz.py); its counters and failure buckets are merged."""
+  import json  # pylint: disable=g-import-not-at-top
+  import os  # pylint: disable=g-import-not-at-top
+  import subprocess  # pylint: disable=g-import-not-at-top
+  import sys  # pylint: disable=g-import-not-at-top
+  import tempfile  # pylint: disable=g-import-not-at-top
+  fd, out = tempfile.mkstemp(prefix="c10_fuzz_", suffix=".json")
+  os.close(fd)
+  os.remove(out)
+  logd = os.path.join(core.HERE, "out", "logs")
+  os.makedirs(logd, exist_ok=True)
+  with open(os.path.join(logd, "C10.fuzz%d.err" % ctx.idx), "w") as log:
+    try:
+      p = subprocess.run(
+          [sys.executable, "-W", "ignore", "-m", "vf.gen.c10_fuzz", "--out",
+           out, "--seconds", str(seconds), "--seed", str(ctx.wseed)],
+          stdout=log, stderr=log, cwd=core.HERE, timeout=seconds + 180)
+      rc = p.returncode
+    except subprocess.TimeoutExpired:
+      rc = -9
+  if rc == 3:
+    ctx.labels["atheris_unavailable"] += 1
+    return
+  if not os.path.exists(out):
+    raise core.HarnessError("atheris child produced no result (rc=%s), see "
+                            "out/logs/C10.fuzz%d.err" % (rc, ctx.idx))
+  with open(out) as f:
+    r = json.load(f)
+  os.remove(out)
+  if rc != 0 and not r["failures"]:
+    raise core.HarnessError("atheris child failed (rc=%s), see "
+                            "out/logs/C10.fuzz%d.err" % (rc, ctx.idx))
+  ctx.evals += r["evals"]
+  for k, v in r["labels"].items():
+    ctx.labels[k] += v
+  ctx.nontrivial.update(r["nontrivial"])
+  for b in r["failures"].values():
+    key = ctx.fail(b["sub_check"], b["signature"], b["case"], b["detail"])
+    ctx.failures[key]["count"] += b["count"] - 1
+  ctx.info["atheris_seconds"] = seconds
+  ctx.info["atheris_evals"] = r["evals"]
+
 
 def replay(ctx, case):
   O.check_signatures()
